@@ -71,6 +71,10 @@ type Exec struct {
 	publishSeen          bool
 	privateRefs          []privateRef
 	curArgs              []*Val
+	iptrs                map[int]*Loc
+	sumIDs               map[string]int
+	loopEntry            map[*loop]map[*ssa.Phi]*Val
+	iptrTerm             map[int]*smt.Term
 	callCovers           int
 	rootVars             map[string]*Val
 	rootLets             map[string]*Val
@@ -527,6 +531,8 @@ func (x *Exec) execLoopInvariant(fr *Frame, l *loop, spec *LoopSpec, entry []*Ed
 		}
 		return fmt.Sprintf("%sinv@loop%d/%s%s", fr.prefix, l.ordinal, kind, lab)
 	}
+	// values of the header phis on entry, for loopentry(v)
+	x.recordLoopEntry(fr, l, entry)
 	// 1. establish on every entry edge
 	for _, e := range entry {
 		ce := x.loopEnvAtEdge(fr, l, e, env)
@@ -900,6 +906,45 @@ func trimPkg(s string) string { return strings.ReplaceAll(s, modPrefix, "") }
 
 // loopEnvAtEdge builds the contract environment for evaluating loop-l invariants
 // on edge e into the header: header phis take the value flowing along e.
+func (x *Exec) recordLoopEntry(fr *Frame, l *loop, entry []*Edge) {
+	if x.loopEntry == nil {
+		x.loopEntry = map[*loop]map[*ssa.Phi]*Val{}
+	}
+	m := map[*ssa.Phi]*Val{}
+	x.loopEntry[l] = m
+	for _, in := range l.header.Instrs {
+		phi, ok := in.(*ssa.Phi)
+		if !ok {
+			break
+		}
+		var conds []*smt.Term
+		var vals []*Val
+		for _, e := range entry {
+			for i, p := range l.header.Preds {
+				if p == e.from {
+					conds = append(conds, e.cond)
+					vals = append(vals, x.valueIn(fr, e.env, phi.Edges[i]))
+					break
+				}
+			}
+		}
+		if len(vals) == 0 {
+			continue
+		}
+		func() {
+			defer func() {
+				if r := recover(); r != nil {
+					if _, ok := r.(unsupportedErr); ok {
+						return
+					}
+					panic(r)
+				}
+			}()
+			m[phi] = x.mergeVals(conds, vals)
+		}()
+	}
+}
+
 func (x *Exec) loopEnvAtEdge(fr *Frame, l *loop, e *Edge, outer *Env) *CEnv {
 	layer := newEnv(e.env)
 	idx := -1
